@@ -177,7 +177,7 @@ def main(tier, replay=None):
         obj = json.load(open(replay))["replay"]
         os.environ["VERIF_SEED"] = str(obj.get("seed", seed()))
         only = obj["item"]
-        tier_h = obj.get("tier", "thorough")
+        tier_h = "thorough"  # enumerate the whole corpus; --only selects the item
         if obj.get("path"):
             # the single codec path of the replay, with the predictions TLC made for it
             paths_all, _ = gen_paths(chk, "q" if len(obj["path"]) <= 4 else "t")
